@@ -214,17 +214,19 @@ impl BasicLexer {
     }
 
     fn trim_end(tokens: &mut Vec<Token>) {
-        if let Some(Token::Whitespace(_)) = tokens.last() {
+        // drop every trailing blank, including runs of stray whitespace
+        // characters (CR, FF, NBSP) that were scanned as unknown tokens
+        loop {
+            match tokens.last() {
+                Some(Token::Whitespace(_)) => {}
+                Some(Token::Unknown(s)) if s.trim_end().is_empty() => {}
+                _ => break,
+            }
             tokens.pop();
         }
         if let Some(Token::Unknown(_)) = tokens.last() {
             if let Some(Token::Unknown(s)) = tokens.pop() {
-                let s = s.trim_end();
-                if !s.is_empty() {
-                    tokens.push(Token::Unknown(s.into()));
-                } else if let Some(Token::Whitespace(_)) = tokens.last() {
-                    tokens.pop();
-                }
+                tokens.push(Token::Unknown(s.trim_end().into()));
             }
         }
     }
